@@ -15,6 +15,22 @@ from . import spec as SP
 AXIOMS = {}     # function name -> list of closed z3 formulas, added to an obligation only if it mentions the name
 
 
+def narrow(ex, st, v, want, raises, exc='builtins:TypeError'):
+    """argument that must be of primitive type `want`: exact static type passes; an optional / union / unknown
+    static type is decided by the run-time shape (the other shapes raise `exc`)"""
+    if v.ty == want:
+        return st, v
+    if isinstance(v.ty, (Ty.TOpt, Ty.TUnion, Ty.TAny)):
+        ok, bad = ex.fork(st, shape(st, v.term, want), None)
+        if bad is not None:
+            raises.append(ex.raised(bad, exc))
+        if ok is None:
+            return None, None
+        return ok, SV(v.term, want)
+    raises.append(ex.raised(st, exc))
+    return None, None
+
+
 def B(z):
     return SV(VBool(z), Ty.BOOL)
 
@@ -544,6 +560,64 @@ AXIOMS['urlenc1'] = []
 AX_INST['b64'] = lambda s: [f_unb64(f_b64(s)) == s]
 
 
+def url_payload(v):
+    """the octets urlencode percent-encodes: bytes as they are, text as UTF-8 (E-URL)"""
+    return z3.If(is_bytes(v), vy(v), f_encode(vs(v)))
+
+
+f_html_escape = z3.Function('html_escape', StrS, StrS)
+f_rawdeflate = z3.Function('rawdeflate', StrS, StrS)       # zlib.compress(b)[2:-4]
+f_zcompress = z3.Function('zcompress', StrS, StrS)
+f_inflate = z3.Function('inflate', StrS, StrS)             # zlib.decompress(b, -15)
+SP.STR_FUNCS.update(html_escape=f_html_escape, rawdeflate=f_rawdeflate, zcompress=f_zcompress, inflate=f_inflate)
+AXIOMS['zcompress'] = [
+    # E-ZLIB: a zlib stream is 2 header bytes + raw deflate data + 4 checksum bytes, and raw inflate inverts it
+    z3.ForAll([_s], z3.Length(f_zcompress(_s)) >= 6, patterns=[f_zcompress(_s)]),
+    z3.ForAll([_s], f_inflate(z3.SubString(f_zcompress(_s), 2, z3.Length(f_zcompress(_s)) - 6)) == _s,
+              patterns=[f_zcompress(_s)]),
+]
+AXIOMS['html_escape'] = [
+    # E-HTML: the escaped text contains no double quote, single quote or angle bracket
+    z3.ForAll([_s], And(Not(z3.Contains(f_html_escape(_s), z3.StringVal('"'))),
+                        Not(z3.Contains(f_html_escape(_s), z3.StringVal("'"))),
+                        Not(z3.Contains(f_html_escape(_s), z3.StringVal('<'))),
+                        Not(z3.Contains(f_html_escape(_s), z3.StringVal('>')))), patterns=[f_html_escape(_s)]),
+]
+AX_INST['zcompress'] = lambda s: [z3.Length(f_zcompress(s)) >= 6,
+                                  f_inflate(z3.SubString(f_zcompress(s), 2, z3.Length(f_zcompress(s)) - 6)) == s]
+
+
+@builtin('html:escape')
+def b_html_escape(ex, st, args, kwargs, node):
+    if len(args) != 1 or kwargs:
+        raise Unsupported('html.escape form')
+    raises = []
+    st, v = narrow(ex, st, args[0], Ty.STR, raises, 'builtins:AttributeError')
+    if st is None:
+        return [], raises
+    return [(st, S(f_html_escape(vs(v.term))))], raises
+
+
+@builtin('zlib:compress')
+def b_zcompress(ex, st, args, kwargs, node):
+    raises = []
+    st, v = narrow(ex, st, args[0], Ty.BYTES, raises)
+    if st is None:
+        return [], raises
+    return [(st, SV(VBytes(f_zcompress(vy(v.term))), Ty.BYTES))], raises
+
+
+@builtin('zlib:decompress')
+def b_zdecompress(ex, st, args, kwargs, node):
+    v = args[0]
+    if not isinstance(v.ty, Ty.TBytes) or len(args) != 2 or not (args[1].has_py and args[1].py == -15):
+        raise Unsupported('zlib.decompress form')
+    ok = fresh('zlib_ok', BoolS)
+    good, bad = ex.fork(st, ok, None)
+    raises = [ex.raised(bad, 'builtins:Exception')] if bad is not None else []
+    return ([(good, SV(VBytes(f_inflate(vy(v.term))), Ty.BYTES))] if good is not None else []), raises
+
+
 @builtin('future.backports.urllib.parse:urlencode')
 @builtin('urllib.parse:urlencode')
 def b_urlencode(ex, st, args, kwargs, node):
@@ -560,7 +634,7 @@ def b_urlencode(ex, st, args, kwargs, node):
         v = st.DV[a][lit(k)]
         if not isinstance(k, str):
             return [(st, S(fresh('urlencoded', StrS)))], []
-        piece = f_urlenc1(z3.StringVal(k), vs(v))
+        piece = f_urlenc1(z3.StringVal(k), url_payload(v))
         parts.append(piece)
     if not parts:
         return [(st, const_sv(''))], []
@@ -572,16 +646,21 @@ def b_urlencode(ex, st, args, kwargs, node):
 
 @builtin('base64:b64encode')
 def b_b64encode(ex, st, args, kwargs, node):
-    v = args[0]
-    if not isinstance(v.ty, Ty.TBytes):
-        raise Unsupported('b64encode of %r' % (v.ty,))
-    return [(st, SV(VBytes(f_b64(vy(v.term))), Ty.BYTES))], []
+    raises = []
+    st, v = narrow(ex, st, args[0], Ty.BYTES, raises)
+    if st is None:
+        return [], raises
+    return [(st, SV(VBytes(f_b64(vy(v.term))), Ty.BYTES))], raises
 
 
 @builtin('base64:b64decode')
 def b_b64decode(ex, st, args, kwargs, node):
     v = args[0]
-    payload = vy(v.term) if isinstance(v.ty, Ty.TBytes) else vs(v.term)
+    payload = z3.If(is_bytes(v.term), vy(v.term), vs(v.term))
+    if isinstance(v.ty, Ty.TBytes):
+        payload = vy(v.term)
+    elif isinstance(v.ty, Ty.TStr):
+        payload = vs(v.term)
     ok = fresh('b64_ok', BoolS)
     good, bad = ex.fork(st, ok, None)
     raises = [ex.raised(bad, 'builtins:ValueError')] if bad is not None else []
